@@ -310,15 +310,13 @@ func min64(a, b uint64) uint64 {
 }
 
 func pmGenOps(t *rapid.T, maxOps int, hostile bool) []pmOp {
-	n := rapid.IntRange(0, maxOps).Draw(t, "nops")
 	kinds := []string{"alloc", "alloc", "alloc", "alloc", "freeHeld", "freeHeld", "freeHeld"}
 	if hostile {
 		kinds = append(kinds, "freeFree", "freeOutside", "freeTwice", "drain", "freeAll")
 	} else {
 		kinds = append(kinds, "drain", "freeAll")
 	}
-	ops := make([]pmOp, 0, n)
-	for i := 0; i < n; i++ {
+	return rapid.SliceOfN(rapid.Custom(func(t *rapid.T) pmOp {
 		k := rapid.SampledFrom(kinds).Draw(t, "op")
 		op := pmOp{Kind: k}
 		switch k {
@@ -330,9 +328,8 @@ func pmGenOps(t *rapid.T, maxOps int, hostile bool) []pmOp {
 				op.Kind = "alloc"
 			}
 		}
-		ops = append(ops, op)
-	}
-	return ops
+		return op
+	}), 0, maxOps).Draw(t, "ops")
 }
 
 // pmLabels computes the class labels of a map + kernel placement.
